@@ -8,6 +8,7 @@ import (
 	"os"
 	"path/filepath"
 	"reflect"
+	"sync/atomic"
 	"time"
 
 	dr "github.com/sarchlab/akita/v5/datarecording"
@@ -69,13 +70,15 @@ func (g *gatedCase) fill() {
 	}
 }
 
+var fileSeq atomic.Int64
+
 var insNames = []string{"i1", "i2", "i3", "i4", "i5", "i6", "i7", "i8"}
 
 // runGated performs one gated run and returns the log (start … end) and the result.
 func runGated(g gatedCase, run int, dir string, rng *rand.Rand) ([]map[string]any, gatedResult) {
 	g.fill()
 	res := gatedResult{Run: run, Name: g.Name, Batch: g.Batch, DivergedAt: -1, Followed: g.Sched != nil, Outcome: g.Outcome}
-	base := filepath.Join(dir, fmt.Sprintf("g%d", run))
+	base := filepath.Join(dir, fmt.Sprintf("g%d-%d", run, fileSeq.Add(1))) // never reuse a name: goroutines of an aborted run may still be draining
 	file := base + ".sqlite3"
 	defer os.Remove(file)
 	var tables []tableSpec
@@ -131,6 +134,7 @@ func runGated(g gatedCase, run int, dir string, rng *rand.Rand) ([]map[string]an
 		empty[t] = [][2]int64{}
 	}
 	idle := 0
+	var idleSince time.Time
 	for {
 		c.refreshBlocked()
 		if !c.settle() {
@@ -161,8 +165,11 @@ func runGated(g gatedCase, run int, dir string, rng *rand.Rand) ([]map[string]an
 				continue
 			}
 			// nobody parked: a goroutine that waited for the mutex is on its way, or stuck for good
+			if idle == 0 {
+				idleSince = time.Now()
+			}
 			idle++
-			if idle < 20000 {
+			if time.Since(idleSince) < 30*time.Second {
 				time.Sleep(100 * time.Microsecond)
 				continue
 			}
@@ -223,8 +230,8 @@ func mapOrderDivergence(g gatedCase, r gatedResult) bool {
 
 func randomCase(rng *rand.Rand, k int, tables []string) gatedCase {
 	g := gatedCase{Name: fmt.Sprintf("random-%d", k), Tables: tables, Prog: map[string][]gEntry{}}
-	g.Batch = []int{1, 1, 2, 2, 3, 4, 5, 1000}[rng.Intn(8)]
-	nIns := 1 + rng.Intn(4)
+	g.Batch = []int{1, 2, 3, 4, 5, 8, 1000, 1000}[rng.Intn(8)]
+	nIns := 1 + rng.Intn(3)
 	id := 0
 	locs := []string{"a", "b", "c"}
 	for i := 0; i < nIns; i++ {
